@@ -73,6 +73,17 @@ pub fn c09_scenario(seed: u64, idx: u64) -> Scenario {
                 hs.push(("Host".into(), format!("{}:7878", host)));
             }
         }
+        // a query that pads the request line of one of the three methods up to a round length: limits
+        // that count the method token treat GET, HEAD and OPTIONS differently
+        let p = if rng.chance(1, 6) {
+            let b = *rng.pick(&[255usize, 256, 512, 1000, 1024, 2000, 2048, 4000, 4096, 8000, 8190, 8192, 9000]);
+            let m = *rng.pick(&["GET", "HEAD", "OPTIONS"]);
+            let fixed = m.len() + 1 + p.len() + 5 + 9; // "M p?pad= HTTP/1.1"
+            let want = (b + rng.below(4)).saturating_sub(1 + rng.below(3));
+            if want > fixed + 1 && want < 9500 && !p.contains('?') && !p.contains('#') { format!("{}?pad={}", p, "x".repeat(want - fixed)) } else { p }
+        } else {
+            p
+        };
         // conditional and negotiation headers: whatever they make GET do, HEAD has to do alike
         if rng.chance(1, 3) {
             let (n, v) = *rng.pick(super::real::CONDITIONAL_HEADERS);
@@ -160,7 +171,7 @@ pub fn c11_scenario(seed: u64, idx: u64) -> Scenario {
         };
         let origin = if rng.chance(1, 12) { Some(rng.pick(super::real::UNUSUAL_ORIGINS).to_string()) } else { origin };
         let method = *rng.pick(&["GET", "GET", "OPTIONS", "OPTIONS", "HEAD", "POST", "PUT", "DELETE", "PATCH"]);
-        let target = *rng.pick(&["/file.txt", "/", "/missing", "/page", "/form-get-method?a=1"]);
+        let target = if rng.chance(1, 4) { *rng.pick(&["/.well-known/security.txt", "/.well-known/acme-challenge/x", "/.well-known/openid-configuration", "/robots.txt", "/favicon.ico", "/api/v1/items", "/static/app.js", "/public/x.png", "/assets/app.css", "/fonts/a.woff2", "/manifest.json", "/sitemap.xml", "/health", "/metrics", "/status", "/cdn-cgi/trace", "/graphql", "/oauth/token"]) } else { *rng.pick(&["/file.txt", "/", "/missing", "/page", "/form-get-method?a=1"]) };
         let mut hs: Vec<(String, String)> = vec![];
         // a configured origin in the headers that are *not* Origin (with or without an Origin next to them)
         if !origins.is_empty() && rng.chance(1, 5) {
@@ -191,7 +202,21 @@ pub fn c11_scenario(seed: u64, idx: u64) -> Scenario {
                 hs.push(("Host".into(), format!("{}:7878", host)));
             }
         }
-        rng.shuffle(&mut hs);
+        // two Origin lines (a proxy that adds one, a client library that repeats it): one configured, one not
+        if !origins.is_empty() && rng.chance(1, 12) {
+            let o = origins[rng.below(origins.len())].clone();
+            let other = rng.pick(&["https://evil.example", "http://other.example", "null"]).to_string();
+            hs.retain(|(n, _)| n != "Origin");
+            if rng.chance(1, 2) {
+                hs.push(("Origin".into(), other));
+                hs.push(("Origin".into(), o));
+            } else {
+                hs.push(("Origin".into(), o));
+                hs.push(("Origin".into(), other));
+            }
+        } else {
+            rng.shuffle(&mut hs);
+        }
         let hs2: Vec<(&str, &str)> = hs.iter().map(|(a, b)| (a.as_str(), b.as_str())).collect();
         let mut bytes = req(method, target, &hs2, b"");
         let mut class = "cors";
@@ -298,6 +323,27 @@ pub fn c08_scenario(seed: u64, idx: u64) -> Scenario {
     sc
 }
 
+/// far more simultaneous connections than workers (one of them silent for a while): each still gets
+/// what it would get alone
+pub fn c08_burst(seed: u64, idx: u64) -> Scenario {
+    let mut rng = rng_for(seed, "C08", "burst", idx);
+    let mut sc = Scenario::base("C08", "burst", idx);
+    sc.engine = Engine::System;
+    sc.sched = Sched { kind: SchedKind::Random, seed: rng.next(), depth: 0 };
+    sc.workers = rng.range(2, 3);
+    sc.request_size = 10000;
+    sc.tree = small_tree(rng.next());
+    let mut stall = Conn::simple(0, 0, get("/file.txt"), "stall");
+    stall.client = ClientMode::Stall { then_send: true };
+    sc.conns.push(stall);
+    let palette = [get("/file.txt"), get("/one.txt"), get("/missing.txt"), req("GET", "/file.txt", &[("Range", "bytes=5-9")], b""), req("HEAD", "/page.html", &[], b"")];
+    let n = *rng.pick(&[1030usize, 1100, 2060]);
+    for i in 1..=n {
+        sc.conns.push(Conn::simple(i, 0, palette[rng.below(palette.len())].clone(), "concurrent"));
+    }
+    sc
+}
+
 fn upload_shaped(rng: &mut crate::util::Rng) -> Vec<u8> {
     let names = ["file.txt", "new.txt", "d/new.txt", "../outside.txt", "../../o.txt", "/tmp/rws-upload-attempt.txt", "probe.txt", "d/index.html"];
     let name = *rng.pick(&names);
@@ -359,6 +405,11 @@ pub fn c13_scenario(seed: u64, idx: u64) -> Scenario {
     let r = format!("outer/{}", rootname);
     for (name, c) in [
         ("large.bin", Content::Sparse { len: (1 << 20) + 17, seed: 5 }),
+        ("legacy/index.htm", Content::Literal("<p>index of another era</p>\n".into())),
+        ("legacy/about.htm", Content::Literal("<p>about</p>\n".into())),
+        ("php/index.php", Content::Literal("<?php phpinfo();\n".into())),
+        ("txt/README.md", Content::Literal("# readme\n".into())),
+        ("def/default.html", Content::Literal("<p>default</p>\n".into())),
         ("download.iso.part", Content::Gen { marker: String::new(), len: 4000, seed: 7, binary: true }),
         ("file.txt.part", Content::Gen { marker: String::new(), len: 120, seed: 8, binary: true }),
         ("d/video.mp4.part", Content::Gen { marker: String::new(), len: 700, seed: 9, binary: true }),
@@ -402,7 +453,7 @@ pub fn c13_scenario(seed: u64, idx: u64) -> Scenario {
                 ("suffix_probe", req(*rng.pick(&["GET", "HEAD"]), &format!("{}{}", base, suffix), &[], b""))
             }
             5 | 6 => {
-                let p = *rng.pick(&["/shortcut/alias.txt", "/shortcut/", "/shortcut", "/real/sub/alias.txt", "/ln.txt", "/ln2.txt", "/dangling.txt", "/dangling-up.txt", "/out.txt", "/slashes.txt", "/emptydir/", "/emptydir"]);
+                let p = *rng.pick(&["/legacy/", "/legacy", "/php/", "/txt/", "/def/", "/def", "/shortcut/alias.txt", "/shortcut/", "/shortcut", "/real/sub/alias.txt", "/ln.txt", "/ln2.txt", "/dangling.txt", "/dangling-up.txt", "/out.txt", "/slashes.txt", "/emptydir/", "/emptydir"]);
                 let m = *rng.pick(&["GET", "GET", "HEAD", "OPTIONS", "POST"]);
                 if rng.chance(1, 3) { ("symlink_path", req(m, p, &[("Range", *rng.pick(&["bytes=0-2", "bytes=1-", "bytes=0-1,3-4", "bytes=-2"]))], b"")) } else { ("symlink_path", req(m, p, &[], b"")) }
             }
@@ -444,6 +495,9 @@ pub fn plan(prop: &'static str, tier: Tier, seed: u64) -> Vec<Campaign> {
             _ => c13_scenario(seed, i),
         }),
     }];
+    if prop == "C08" {
+        v.push(Campaign { name: "burst", budget: Budget::Count(match tier { Tier::Quick => 6, Tier::Thorough => 40 }), exhaustive: false, gen: Box::new(move |i| c08_burst(seed, i)) });
+    }
     if prop == "C09" {
         v.push(Campaign { name: "large_files", budget: Budget::Count(match tier { Tier::Quick => 32, Tier::Thorough => 300 }), exhaustive: false, gen: Box::new(move |i| super::c02::large_scenario("C09", seed, i)) });
     }
